@@ -4,8 +4,15 @@
 //! trusted: R15 (deep slice): execute_locked_write: the block executed under the per-key write lock, verbatim as a function of the guarded counter (the RwLock write guard is taken as `&mut u64`), the version and the callback; clean_locks and the file operations in the callbacks (rename of the temporary file, fsync, remove_file) are dropped and not claimed; R7: `callback().map(|_| { S })` is written as a match on the callback's result (std semantics of Result::map; Verus has no `_` closure parameters)
 //! trusted: the callback is any `FnOnce() -> Result<(), Error>`: the function may call it only under its precondition, which the contract grants only for a version newer than the recorded one (so "the callback ran" implies "the operation was not stale")
 //! assume: versions are issued in increasing order per key by get_new_version_and_lock_ref (an atomic counter, not verified); concurrency is the lock's (the contract is for the critical section)
+//! trusted: assume_specification for core::cmp::max / core::cmp::min (std definitions): present in every unit so that a change that introduces them is verified instead of being rejected by the tool
 use vstd::prelude::*;
 verus! {
+use vstd::std_specs::cmp::*;
+use core::cmp;
+pub assume_specification<T: core::cmp::Ord>[core::cmp::max::<T>](a: T, b: T) -> (r: T)
+    ensures T::obeys_cmp_spec() ==> r == (if b.cmp_spec(&a) == core::cmp::Ordering::Less { a } else { b });
+pub assume_specification<T: core::cmp::Ord>[core::cmp::min::<T>](a: T, b: T) -> (r: T)
+    ensures T::obeys_cmp_spec() ==> r == (if b.cmp_spec(&a) == core::cmp::Ordering::Less { b } else { a });
 pub struct Error {}
 //@extract lightning-persister/src/fs_store/common.rs :: impl FilesystemStoreInner :: fn execute_locked_write
 //@slice R15
